@@ -257,6 +257,8 @@ def replay(rp):
     k = rp.get('kind')
     if k == 'feed-shift':
         bad = property_feed_shift(rp['ant'], rp['pulse'], complex(*rp['zl']), rp.get('real_ground', False))
+    elif k == 'pulseless-loaded-wire':
+        bad = dict(pulseless_corpus()).get(rp['case'])
     elif k == 'distributed':
         import random
         rng = random.Random(rp['gen_seed'])
@@ -285,6 +287,32 @@ def insulation_corpus_case():
     return property_distributed(m)
 
 
+def pulseless_corpus():
+    """corpus: a one-segment wire that owns no pulse (defined first, its other end free, or between two later wires) carrying a
+    skin-effect or insulation load of its own while the wires joined to it carry none — its half segments sit in junction
+    pulses owned by the other wires, which must carry the load.  Returns (description, violation or None) per case."""
+    from mininec.mininec import Mininec, Wire, Insulation_Load, Skin_Effect_Load, Excitation
+    out = []
+    for kind in ('skin', 'coat'):
+        for shape in ('stub-first', 'stub-between', 'stub-last'):
+            stub = lambda: Wire(1, 0, 0, 0, 0, 0, 1, .001, tag=(2 if shape == 'stub-last' else 1))
+            if shape == 'stub-first':
+                ws = [stub(), Wire(4, 0, 0, 1, 0, 1, 1, .003, tag=5)]
+            elif shape == 'stub-between':
+                ws = [stub(), Wire(4, 0, 0, 1, 0, 1, 1, .003, tag=5), Wire(3, 0, 0, 0, 1, 0, -0.5, .002, tag=7)]
+            else:
+                ws = [Wire(4, 0, 0, 1, 0, 1, 1, .003, tag=1), stub()]
+            m = Mininec(10, ws)
+            w = [g for g in m.geo if g.n_segments == 1][0]
+            ld = Skin_Effect_Load(w, 3e5) if kind == 'skin' else Insulation_Load(w, .005, 3.0)
+            m.register_load(ld, None, w.tag)
+            m.fix_distributed_loads()
+            m.register_source(Excitation(1), 1)
+            m.compute()
+            out.append(('%s load on the one-segment wire only, %s' % (kind, shape), property_distributed(m)))
+    return out
+
+
 def run(ck):
     from mininec.mininec import Skin_Effect_Load, Insulation_Load
     import random
@@ -299,6 +327,10 @@ def run(ck):
     if bad:
         viol.append(dict(kind='insulation-junction', observed=bad,
                          api=['Wire(1,0,0,0,0,0,1,.001)', 'Wire(4,0,0,1,0,1,1,.003)', 'Insulation_Load(w,.005,3.0) on both', 'f=10']))
+    for desc_, bad_ in pulseless_corpus():
+        ck.case(('corpus', desc_), True)
+        if bad_:
+            viol.append(dict(kind='pulseless-loaded-wire', case=desc_, observed=bad_))
     n = 120 if ck.tier == 'quick' else 2000
     viol_d = []
     for i in range(n):
